@@ -7,7 +7,6 @@ import math
 import pathlib
 import shutil
 import sys
-import time
 from fractions import Fraction as F
 
 sys.path.insert(0, str(pathlib.Path(__file__).resolve().parent))
@@ -101,7 +100,7 @@ def near_corner_ray(pos, size, p, s, eps=1e-6) -> bool:
     return False
 
 
-def snap_expectation(style, port, pos, size, p, s, r):
+def snap_expectation(style, port, pos, size, p, s, r, exact=False):
     """None if the outcome r of Box(pos,size,port).vector_snap(p, source=s, style) satisfies the property,
     else (class key, description).  Thin sets with a known defect get their own narrow class key."""
     w, h = max(size[0], 0), max(size[1], 0)
@@ -111,7 +110,7 @@ def snap_expectation(style, port, pos, size, p, s, r):
             cls = oblique_class(pos, size, p, s)
             if cls is not None and r.name == "AssertionError":
                 return ("snap:oblique-" + cls, f"raises {r.raw}")
-            if r.name == "AssertionError" and near_corner_ray(pos, (w, h), p, s, 1e-9):
+            if not exact and r.name == "AssertionError" and near_corner_ray(pos, (w, h), p, s, 1e-9):
                 # exact arithmetic has exactly one intersection; the float range test at the border's end loses it
                 return ("snap:oblique-corner-rounding", f"raises {r.raw}")
         if closest and (w == 0 or h == 0) and r.name == "ValueError":
@@ -148,16 +147,17 @@ def run_snapping(chk: lib.Check):
         except Exception as e:  # noqa: BLE001
             return err_of(e)
 
-    counts = {"lattice": 0, "degenerate": 0, "random": 0, "translated": 0, "errors": 0, "corr": 0}
+    counts = {"lattice": 0, "degenerate": 0, "dyadic": 0, "random": 0, "translated": 0, "errors": 0, "corr": 0}
     classes: dict[str, int] = {}
-    cases: list = []
+    cases: list = []          # computed by the implementation without rounding (lattice, degenerate, dyadic)
+    cases_float: list = []    # arbitrary floats
 
-    def one(style, port, pos, size, p, s, stream, corr: bool):
+    def one(style, port, pos, size, p, s, stream, corr: bool, into=None):
         r = impl(style, port, pos, size, p, s)
         counts[stream] += 1
         if isinstance(r, Err):
             counts["errors"] += 1
-        bad = snap_expectation(style, port, pos, size, p, s, r)
+        bad = snap_expectation(style, port, pos, size, p, s, r, exact=stream != "random")
         if bad:
             key, what = bad
             classes[key] = classes.get(key, 0) + 1
@@ -166,7 +166,7 @@ def run_snapping(chk: lib.Check):
                            "point": list(p), "source": list(s), "style": style,
                            "outcome": repr(r)})
         if corr:
-            cases.append(([[STYLES.index(style), port, vv(pos), vv(size), vv(p), vv(s)], out_vec(r)], True))
+            (cases if into is None else into).append(([[STYLES.index(style), port, vv(pos), vv(size), vv(p), vv(s)], out_vec(r)], True))
         return r
 
     # (i) the lattice of the design: corner in {0,1}^2, size in {1..4}^2, point and source in {-2..6}^2
@@ -199,7 +199,6 @@ def run_snapping(chk: lib.Check):
     # (iii) random real-valued: dyadic rationals (float arithmetic exact) and arbitrary floats
     def dy():
         return rng.randint(-400, 400) / rng.choice((1, 2, 4, 8, 16, 64))
-    exact_upto = len(cases)        # cases[:exact_upto] are computed without rounding by the implementation
     for k in range(2500 if quick else 40000):
         style = rng.choice(STYLES)
         port = rng.random() < 0.4
@@ -220,17 +219,11 @@ def run_snapping(chk: lib.Check):
         else:
             p = gen()
         s = p if rng.random() < 0.08 else gen()
-        if not arbitrary:
-            cases.insert(exact_upto, None)   # keep exact cases in front
-            r = one(style, port, pos, size, p, s, "random", True)
-            cases[exact_upto] = cases.pop()
-            exact_upto += 1
-        else:
-            one(style, port, pos, size, p, s, "random", True)
+        one(style, port, pos, size, p, s, "random" if arbitrary else "dyadic", True, into=cases_float if arbitrary else cases)
 
     # (iv) translation of snapping calls on the implementation: same outcome shifted, same crash
     tcount = 0
-    sample = [c for c in cases[:exact_upto] if rng.random() < (0.25 if quick else 0.1)]
+    sample = [c for c in cases if rng.random() < (0.25 if quick else 0.1)]
     for (inp, out), _ in sample:
         st, port, pos, size, p, s = inp
         fl = lambda v: tuple(float(F(*x)) if isinstance(x, list) else x for x in v)  # noqa: E731
@@ -255,6 +248,7 @@ def run_snapping(chk: lib.Check):
                            "style": style, "translation": v, "outcome": repr(r0), "translated_outcome": repr(r1)})
 
     chk.samples.append({"vector_snap": cases[5][0] if len(cases) > 5 else None})
+    cases = cases + cases_float
     counts["corr"] = len(cases)
     chk.coverage["snap_streams"] = counts
     chk.coverage["snap_failure_classes"] = classes
@@ -802,12 +796,158 @@ def run_diagrams(chk: lib.Check):
     chk.samples.append({"diagram_run": {k: stats[k] for k in ("models", "diagrams", "translated_diagrams", "node_moves")}})
 
 
+# ------------------------------------------------------------------ part D: edge-end snapping and default routes
+def run_edge_ends(chk: lib.Check):
+    """_edge_factories.snaptarget / route_* on synthetic boxes and polylines: after snapping, the end of
+    the edge lies on the outline of the box it is attached to (tree: on its top or bottom side)."""
+    from capellambse import diagram as D
+    from capellambse.aird import _edge_factories as EF
+    quick = chk.tier == "quick"
+    rng = chk.rng
+    classes: dict[str, int] = {}
+    n = {"snaptarget": 0, "routes": 0}
+    snap_cases, route_cases = [], []
+    IMPORTS_E = "From V Require Import Model.Geom Model.GeomEdge."
+
+    def bval(b):
+        return [vv(tuple(b.pos)), vv(tuple(b.size)), bool(b.port)]
+
+    def classify(exc):
+        tb, frame = exc.__traceback__, None
+        while tb is not None:
+            frame, tb = tb.tb_frame, tb.tb_next
+        if isinstance(exc, AssertionError) and frame is not None and frame.f_code.co_name == "__vector_snap_oblique":
+            loc = frame.f_locals
+            box, edge = loc.get("self"), loc.get("edge")
+            orig = loc.get("point")
+            if box is not None and edge is not None:
+                cls = oblique_class(tuple(box.pos), tuple(box.size), tuple(edge[1]), tuple(edge[0]))
+                if cls is None and tuple(edge[0]) == tuple(edge[1]):
+                    cls = "no-direction"
+                if cls is not None:
+                    return "snap:oblique-" + cls
+                if near_corner_ray(tuple(box.pos), tuple(box.size), tuple(edge[1]), tuple(edge[0]), 1e-9):
+                    return "snap:oblique-corner-rounding"
+        return None
+
+    def check_end(style, box, pts, idx, what, replay):
+        pt = pts[idx]
+        pos, size = tuple(box.pos), tuple(box.size)
+        if not finite(pt[0], pt[1]):
+            key = f"edge-snap:{style}:non-finite"
+        elif style == "tree":
+            ok = abs(pt[1] - pos[1]) <= EPS or abs(pt[1] - (pos[1] + size[1])) <= EPS
+            key = None if ok else ("snap:tree-source-equals-point" if replay.get("zero_direction") else
+                                   "edge-snap:tree-end-x-differs" if replay.get("x_differs") else "edge-snap:tree:off-side")
+        else:
+            key = None if on_outline(pt, pos, size) else f"edge-snap:{style}:off-outline"
+        if key:
+            classes[key] = classes.get(key, 0) + 1
+            chk.violation(key, f"{what}: end {tuple(pt)} is not on the {'top/bottom side' if style == 'tree' else 'outline'} of Box({pos},{size})", replay)
+
+    def coord():
+        return rng.randint(-40, 120) / rng.choice((1, 1, 2, 4))
+
+    for k in range(4000 if quick else 60000):
+        style = STYLES[k % 3]
+        port = rng.random() < 0.4
+        pos = (rng.randint(0, 60), rng.randint(0, 60))
+        size = (10, 10) if port else (rng.randint(1, 50), rng.randint(1, 50))
+        box = D.Box(pos, size, port=port)
+        npts = rng.randint(2, 4)
+        pts = [D.Vector2D(coord(), coord()) for _ in range(npts)]
+        if style != "oblique" and rng.random() < 0.7:     # mostly axis-parallel polylines for these styles
+            for j in range(1, npts):
+                pts[j] = D.Vector2D(pts[j - 1].x, pts[j].y) if (j + k) % 2 else D.Vector2D(pts[j].x, pts[j - 1].y)
+        target_end = rng.random() < 0.5
+        i, nxt = (-1, -2) if target_end else (0, 1)
+        if rng.random() < 0.5:       # end stored somewhere inside / on the box, as Capella does
+            pts[i] = D.Vector2D(pos[0] + size[0] * rng.choice((0, 0.25, 0.5, 1)), pos[1] + size[1] * rng.choice((0, 0.5, 0.75, 1)))
+        before = [tuple(q) for q in pts]
+        replay = {"call": "_edge_factories.snaptarget", "style": style, "box": [pos, size], "port": port,
+                  "points": before, "end": "target" if target_end else "source"}
+        n["snaptarget"] += 1
+        chk.note_case(("edge-end", style, port, pos, size, tuple(before), target_end))
+        try:
+            EF.snaptarget(pts, i, nxt, box, routingstyle={"oblique": None, "manhattan": "manhattan", "tree": "tree"}[style])
+            if style != "oblique":     # the points that replace the end, from the neighbour's side outwards
+                grown = len(pts) - len(before)
+                repl = pts[len(before) - 1:] if target_end else list(reversed(pts[: grown + 1]))
+                snap_cases.append(([[STYLES.index(style), bval(box), vv(before[i]), vv(before[nxt])], [vv(q) for q in repl]], True))
+        except Exception as e:  # noqa: BLE001
+            if style != "oblique":
+                snap_cases.append(([[STYLES.index(style), bval(box), vv(before[i]), vv(before[nxt])], err_of(e)], True))
+            key = classify(e) or f"edge-snap:{style}:raises-{type(e).__name__}"
+            classes[key] = classes.get(key, 0) + 1
+            chk.violation(key, f"snaptarget({before}, {i}, {nxt}, Box({pos},{size},port={port}), {style}) raises {type(e).__name__}: {str(e)[:120]}", replay)
+            continue
+        if style == "tree":
+            # the stored end's x differs from where the tree snap puts it (only possible for ports)
+            replay["x_differs"] = port and abs(before[i][0] - (pos[0] + size[0] / 2)) > 1e-9
+            replay["zero_direction"] = before[i] == before[nxt]
+        check_end(style, box, pts, -1 if target_end else 0, f"snaptarget({before}, {i}, {nxt}, Box({pos},{size},port={port}), {style})", replay)
+
+    # default routes between two boxes, then both ends snapped as generic_factory does
+    routes = {"oblique": EF.route_oblique, "manhattan": EF.route_manhattan, "tree": EF.route_tree}
+    for k in range(1500 if quick else 20000):
+        style = STYLES[k % 3]
+        def mk():
+            port = rng.random() < 0.3
+            return D.Box((rng.randint(-50, 150), rng.randint(-50, 150)), (10, 10) if port else (rng.randint(2, 60), rng.randint(2, 60)), port=port)
+        a, b = mk(), mk()
+        replay = {"call": f"_edge_factories.route_{style} + snaptarget", "source": [tuple(a.pos), tuple(a.size), a.port],
+                  "target": [tuple(b.pos), tuple(b.size), b.port], "style": style}
+        n["routes"] += 1
+        chk.note_case(("route", style, replay["source"], replay["target"]))
+        rs = {"oblique": None, "manhattan": "manhattan", "tree": "tree"}[style]
+        try:
+            pts = list(routes[style](a, b))
+            if style != "oblique":
+                route_cases.append(([[STYLES.index(style) - 1, bval(a), bval(b)], [vv(q) for q in pts]], True))
+            EF.snaptarget(pts, -1, -2, b, routingstyle=rs)
+            EF.snaptarget(pts, 0, 1, a, routingstyle=rs)
+        except Exception as e:  # noqa: BLE001
+            key = classify(e) or f"edge-route:{style}:raises-{type(e).__name__}"
+            classes[key] = classes.get(key, 0) + 1
+            chk.violation(key, f"route_{style} + snaptarget between Box{replay['source']} and Box{replay['target']} raises {type(e).__name__}: {str(e)[:120]}", replay)
+            continue
+        replay["points"] = [tuple(q) for q in pts]
+        check_end(style, b, pts, -1, f"route_{style} {replay['source']} -> {replay['target']} (target end)", dict(replay, x_differs=False))
+        check_end(style, a, pts, 0, f"route_{style} {replay['source']} -> {replay['target']} (source end)", dict(replay, x_differs=False))
+    chk.coverage["edge_ends"] = dict(n, failure_classes=classes, model_cases={"edge_snap": len(snap_cases), "route": len(route_cases)})
+    chk.correspond(IMPORTS_E, "w_edge_snap", snap_cases, tag="C17_esnap", shard=1500,
+                   describe=lambda i: {"[style(1 manhattan, 2 tree), box, end point, neighbour], replacement points outwards": snap_cases[i][0]})
+    chk.correspond(IMPORTS_E, "w_route", route_cases, tag="C17_route", shard=1500,
+                   describe=lambda i: {"[0 route_manhattan / 1 route_tree, source box, target box], points": route_cases[i][0]})
+
+
 def run(chk: lib.Check):
-    logging.disable(logging.CRITICAL)
-    pr = chk.prove()
+    logging.disable(logging.CRITICAL)      # the parser warns about every skipped element
+    chk.prove()
     run_snapping(chk)
     run_primitives(chk)
+    run_edge_ends(chk)
     run_diagrams(chk)
+    quick = chk.tier == "quick"
+    chk.coverage["rule"] = (
+        "snapping: design lattice (box corner {0,1}^2, size {1..4}^2, point and source {-2..6}^2, 3 styles, port/non-port; "
+        + ("1/40 slice" if quick else "exhaustive, 2.5M calls") + " on the implementation oracle, a seeded sample of it through the Coq model), "
+        "all lattice boxes x points with source = point exhaustively, a degenerate-size stream, dyadic and arbitrary-float random cases, "
+        "translation of exact cases by random integer vectors in [-5000,5000]^2; primitives: line_intersect / closestaxis / snap_to_parent "
+        "(port, non-port) / calculate_viewport model vs implementation; edge ends: snaptarget and route_* on synthetic boxes and polylines; "
+        "diagrams: every diagram of " + ("the 5_2 test model" if quick else "every model under tests/data") + " parsed, checked for soundness, "
+        "re-parsed after translating the stored .aird layout (one random or extreme vector per diagram and round) and after moving one "
+        "top-level node per diagram and round; non-trivial = distinct call / diagram / (diagram, vector)")
+    chk.coverage["exhaustive"] = not quick
+    chk.assumptions += [
+        "Model/Geom.v is over exact rationals: implementation floats are converted exactly (fractions.Fraction) and results compared within 1e-6; "
+        "math.isclose(x, 0.0) is modelled as x == 0 and the atan2 comparisons of __vector_snap_closest as sign tests (both sampled by the correspondence)",
+        "box sizes in the model are those seen through Box.size of a label-less, child-less box (clamped to >= 0); auto-sizing from labels/children "
+        "(PIL text extents) is outside the model",
+        "whole-diagram claims (soundness of every corpus diagram, translation of the stored layout, moving one node) are decided per instance by "
+        "the oracle on the implementation, not proved; _edge_factories.snap_oblique/snap_manhattan/snap_tree and route_* are covered by the oracle only",
+        "the oracle reads the .aird with lxml, classifies crashes by the innermost traceback frame and exact Fraction arithmetic, and shares no code with capellambse",
+    ]
 
 
 if __name__ == "__main__":
